@@ -17,7 +17,7 @@ REQUIRED = [
     "introspect_depends_on_token_store_only", "s2s_all_required_definitions_fulfilled_false", "plain_introspection_members",
     "fact_s2s_chain", "fact_code_token_chain", "fact_authorize_response_chain", "fact_introspect_chain",
     "fact_reserved_covers_fields", "fact_empty_vp_checked", "fact_nonce_ttl_covers_window", "fact_ttls",
-    "fact_verifyvp_args", "fact_audience_exact", "fact_introspection_fields", "fact_access_token_init", "fact_introspection_init",
+    "fact_verifyvp_args", "fact_audience_exact", "fact_deciding_conditions", "fact_windows", "fact_store_prefixes_distinct", "fact_introspection_fields", "fact_access_token_init", "fact_introspection_init",
 ]
 
 STD = ["active", "aud", "client_id", "cnf", "exp", "iat", "iss", "presentation_definitions", "presentation_submissions", "scope", "vps"]
@@ -38,10 +38,13 @@ class Oracle:
 
     def __init__(self, facts):
         self.f = facts
-        ns = 1000000  # operation times and presentation time stamps are in ns, the facts in ms
-        self.max_validity = facts["s2sMaxValidityMs"] * ns
-        self.skew = facts["verifierMaxSkewMs"] * ns
-        self.validity = facts["accessTokenValidityMs"] * ns
+        ns = 1000000  # operation times and presentation time stamps are in ns
+        # the windows the property speaks of are SPEC values (Nuts RFC021 / documented), not whatever the source says today:
+        # a changed constant must show up as a violation, not move the expectation (fact_windows pins them too)
+        self.max_validity = 5000 * ns
+        self.skew = 5000 * ns
+        self.validity = 900000 * ns
+        self.flow = 60000 * ns
         self.findings = []  # (signature, text, op indexes)
         self.reset(None)
 
@@ -122,7 +125,8 @@ class Oracle:
             target = [d for d in defs if d["id"] == op.get("def_id")]
             if not target:
                 why.append("definition-not-configured-for-scope")
-            elif target[0]["key"] not in (op.get("pex") or []):
+            elif target[0]["key"] not in (op.get("pex") or []) or op.get("pex_expected") is False:
+                # real PEX verdict, or the generator's ground truth where it knows (a PEX engine that accepts too much)
                 why.append("submission-does-not-validate")
             if len(defs) > 1 and target:
                 self.bad("s2s-token-with-unfulfilled-required-definition",
@@ -138,7 +142,7 @@ class Oracle:
         if not line.startswith("200 "):
             return
         t = op["t"]
-        flow = self.f["oauthFlowTimeoutMs"] * 1000000
+        flow = self.flow
         why = []
         sess = self.sessions.get(op.get("state"))
         if sess is None:
@@ -183,7 +187,7 @@ class Oracle:
         if not target:
             why.append("definition-not-required")
         else:
-            if target[0]["key"] not in (op.get("pex") or []):
+            if target[0]["key"] not in (op.get("pex") or []) or op.get("pex_expected") is False:
                 why.append("submission-does-not-validate")
             if op.get("def_id") in sess["fulfilled"]:
                 why.append("definition-already-fulfilled")
@@ -209,7 +213,7 @@ class Oracle:
             return
         import hashlib, base64
         t = op["t"]
-        flow = self.f["oauthFlowTimeoutMs"] * 1000000
+        flow = self.flow
         c = self.codes.get(op.get("code"))
         if c is None:
             self.bad("token-for-unknown-authorization-code", f"op {i}: 200 for code {op.get('code')!r} that was never issued", [i])
@@ -277,7 +281,7 @@ class Oracle:
             self.bad("introspection-fails", f"ops {j},{i}: {line[:160]}", [j, i])
             return
         got = parse_kv(line)
-        std_names = self.f["introspectionFields"]
+        std_names = sorted(set(STD) | set(self.f["introspectionFields"]))
         for k in std_names:
             want = exp.get(k)
             if op.get("extended") and k in ("vps", "presentation_definitions", "presentation_submissions"):
